@@ -81,7 +81,9 @@ IDENT = (r"^core::convert::AsRef::as_ref$|^core::ops::deref::Deref::deref$|^core
          r"^alloc::string::String::as_str$|^alloc::string::String::as_bytes$|^core::str::<impl str>::as_bytes$|^alloc::vec::Vec::<T, A>::as_slice$|"
          r"^core::hint::must_use$|^alloc::boxed::Box::<T>::new$|^core::convert::AsMut::as_mut$|^alloc::string::String::into_bytes$|^core::slice::<impl \[T\]>::iter$|"
          r"^core::iter::traits::collect::IntoIterator::into_iter$|^alloc::str::<impl str>::to_owned$|^core::array::<impl \[T; N\]>::as_slice$|^generic_array::GenericArray::<T, N>::as_slice$|"
-         r"^core::str::<impl str>::to_string$|^alloc::string::String::from_utf8_unchecked$")
+         r"^core::str::<impl str>::to_string$|^alloc::string::String::from_utf8_unchecked$|"
+         r"^alloc::vec::Vec::<T, A>::into_boxed_slice$|^alloc::slice::<impl \[T\]>::into_vec$|^alloc::string::String::into_boxed_str$|^alloc::str::<impl str>::into_string$|"
+         r"^alloc::vec::Vec::<T, A>::as_mut_slice$|^alloc::vec::Vec::<T, A>::leak$")
 
 
 @model(IDENT)
@@ -95,7 +97,17 @@ def m_ident(I, st, info, args, depth):
         sv = deref(I, st, v)
         if isinstance(sv, Seq) and sv.elems is not None and not (isinstance(sv, Struct)):
             return ret(st, Struct("SliceIter", None, {"seq": sv, "pos": Aff(0)}))
-    if re.search(r"to_owned$|to_string$|to_vec$|Clone::clone$|Box::<T>::new$|into_bytes$", td):
+    if td.endswith("ToString::to_string"):
+        # x.to_string() of something that is not text itself: the text its Display prints (the same piece `format!("{}", x)` yields)
+        sv = deref(I, st, v)
+        if not isinstance(sv, (Seq, StrV)):
+            shown = display_of(I, st, v, depth)
+            if isinstance(shown, (Seq, StrV)):
+                return ret(st, shown)
+            n = st.facts.get("nfmt", 0)
+            st.facts["nfmt"] = n + 1
+            return ret(st, Seq("formatted#%d" % n, Aff.sym("len(fmt#%d)" % n), None, [("arg", shown)], kind="str"))
+    if re.search(r"to_owned$|to_string$|to_vec$|Clone::clone$|Box::<T>::new$|into_bytes$|into_boxed_slice$|into_vec$|into_boxed_str$|into_string$", td):
         return ret(st, deref(I, st, v))
     return ret(st, v)
 
@@ -257,7 +269,10 @@ def m_option(I, st, info, args, depth):
     for s2, v in as_enum(I, st, args[0], O):
         is_some = v.variant == "Some"
         inner = v.fields.get("0")
-        if op in ("as_ref", "as_mut", "as_deref", "as_deref_mut", "copied", "cloned"):
+        if op in ("copied", "cloned") and is_some and isinstance(I.resolve(s2, inner), Ptr):
+            # Option<&T> -> Option<T>: the value the reference points to
+            out.append((s2, "return", some(deref(I, s2, inner))))
+        elif op in ("as_ref", "as_mut", "as_deref", "as_deref_mut", "copied", "cloned"):
             out.append((s2, "return", v))
         elif op == "is_some":
             out.append((s2, "return", BoolV(is_some)))
@@ -377,8 +392,18 @@ def default_of(ty):
     if "Footer<" in ty or "ImplicitAssertion<" in ty or "Payload<" in ty:
         adt = re.sub(r"<.*$", "", ty)
         return Struct(adt, None, {"0": StrV("")})
-    if ty.startswith("&str") or ty == "&str":
+    if ty.startswith("&str") or ty == "&str" or ty in ("alloc::string::String", "str"):
         return StrV("")
+    if ty == "serde_json::value::Value":
+        return Struct("serde_json::value::Value", "Null", {})     # impl Default for Value: Null
+    if ty == "bool":
+        return BoolV(False)
+    if re.match(r"^[ui](8|16|32|64|128|size)$", ty):
+        return Aff(0, ty=ty)
+    if ty.startswith("core::option::Option<"):
+        return none()
+    if ty.startswith("alloc::vec::Vec<"):
+        return Seq("vec", Aff(0), elems=[], kind="vec")
     return Sym("default::<%s>" % M.short(ty))
 
 
@@ -637,7 +662,7 @@ def m_arg(I, st, info, args, depth):
     return ret(st, Struct("fmt::Argument", None, {"0": args[0]}))
 
 
-@model(r"^core::fmt::Arguments::<'a>::new$|^core::fmt::Arguments::<'_>::new$|^core::fmt::Arguments::<'a>::from_str$")
+@model(r"^core::fmt::Arguments::<'a>::new$|^core::fmt::Arguments::<'_>::new$|^core::fmt::Arguments::<'(a|_)>::(from_str|from_str_nonconst)$")
 def m_arguments(I, st, info, args, depth):
     return ret(st, Struct("fmt::Arguments", None, {"template": args[0], "args": args[1] if len(args) > 1 else Seq("array", Aff(0), [], kind="array")}))
 
@@ -727,7 +752,11 @@ def describe(I, st, v, depth=0):
                 if c[0] == "lit":
                     out.append(c[1])
                 elif c[0] == "arg":
-                    out.append("{%s}" % describe(I, st, c[1], depth + 1))
+                    inner = deref(I, st, c[1])
+                    if isinstance(inner, Seq) and inner.chunks is not None:
+                        out.append(describe(I, st, c[1], depth + 1))      # a piece that is itself pieced together: the same text
+                    else:
+                        out.append("{%s}" % describe(I, st, c[1], depth + 1))
                 else:
                     out.append("{%s}" % (c[1],))
             return "".join(out)
@@ -893,6 +922,11 @@ def json_classes(I, st, v):
 def fork_classes(I, st, v, pred):
     """split on pred(class): returns [(state, True/False)]"""
     sym, cls = json_classes(I, st, v)
+    if cls is None and isinstance(sym, Struct) and sym.adt == "serde_json::value::Value" and sym.variant is not None:
+        # a concrete JSON value (Value::Null, Value::String(..), ..): its own class
+        vc = {"Null": "Null", "Bool": "Bool", "Number": "Number", "Array": "Array", "Object": "Object", "String": "String:other"}.get(sym.variant)
+        if vc is not None:
+            return [(st, bool(pred(vc)))]
     if cls is None:
         s2 = st.clone()
         s2.notes.append("JSON value of unknown shape")
@@ -1022,6 +1056,30 @@ def m_ord(I, st, info, args, depth):
     return ret(st, SymBool((op, repr(a), repr(b))))
 
 
+@model(r"^time::(signed_duration::SignedDuration|duration::Duration)::(weeks|days|hours|minutes|seconds|milliseconds)$")
+def m_duration(I, st, info, args, depth):
+    """a constant span of time, in seconds"""
+    unit = info["tdef"].split("::")[-1]
+    n = I.resolve(st, args[0])
+    mult = {"weeks": 604800, "days": 86400, "hours": 3600, "minutes": 60, "seconds": 1}.get(unit)
+    if isinstance(n, Aff) and n.is_const() and mult:
+        return ret(st, Struct("time::Duration", None, {"secs": Aff(n.const * mult)}))
+    return ret(st, Sym("duration(%s %s)" % (unit, n if isinstance(n, Aff) else "?"), "time::Duration"))
+
+
+@model(r"^time::offset_date_time::OffsetDateTime::format$")
+def m_time_format(I, st, info, args, depth):
+    """instant.format(&Rfc3339): the rendering of that instant (fails only outside the representable range)"""
+    a = deref(I, st, args[0])
+    nm = getattr(a, "name", "?")
+    wk = "Rfc3339" if "Rfc3339" in " ".join(info.get("gargs") or []) + info["name"] else "?"
+    s2 = st.clone()
+    s2.cond.append("format(%s) ok" % nm)
+    st.cond.append("format(%s) fails" % nm)
+    txt = Seq("%s(%s)" % (wk.lower(), nm), Aff.sym("len(%s(%s))" % (wk.lower(), nm)), kind="str", attrs={"rendered": nm, "format": wk, "ascii": True})
+    return [(s2, "return", ok(txt)), (st, "return", err(Sym("time::error::Format")))]
+
+
 @model(r"^time::offset_date_time::OffsetDateTime::(replace_offset|to_offset|date|time|replace_|unix_timestamp|replace_time|replace_date|checked_add|checked_sub|saturating)|^<time::offset_date_time::OffsetDateTime as core::ops::arith::(Add|Sub)")
 def m_time_transform(I, st, info, args, depth):
     a = deref(I, st, args[0])
@@ -1046,6 +1104,12 @@ def m_time_transform(I, st, info, args, depth):
     at = {"derived_from": nm, "transform": op}
     if isinstance(a, Sym) and a.attrs.get("now"):
         at["now"] = True    # a fixed distance from the clock reading
+    d = deref(I, st, args[1]) if len(args) > 1 else None
+    if op in ("add", "sub") and isinstance(a, Sym) and isinstance(d, Struct) and d.adt == "time::Duration" and isinstance(d.fields.get("secs"), Aff):
+        secs = d.fields["secs"].const * (1 if op == "add" else -1) + (a.attrs.get("offset_secs") or 0)
+        base = a.attrs.get("base", nm)
+        at.update({"instant": True, "offset_secs": secs, "base": base})
+        return ret(st, Sym("%s%+ds" % (base, secs) if secs else base, "time::OffsetDateTime", attrs=at))
     return ret(st, Sym("%s(%s)" % (op, nm), "time::?", attrs=at))
 
 
@@ -1305,6 +1369,46 @@ def m_split_at_mut(I, st, info, args, depth):
     return out
 
 
+@model(r"^core::slice::<impl \[T\]>::(split_first_chunk_mut|split_last_chunk_mut|first_chunk_mut|last_chunk_mut)$")
+def m_chunk_mut(I, st, info, args, depth):
+    """mutable chunk views: pointers to byte ranges of the buffer (None when it is shorter than N)"""
+    p = I.resolve(st, args[0])
+    g = 0
+    while isinstance(p, Ptr) and isinstance(I.resolve(st, I.load(st, p)), Ptr) and g < 4:
+        p = I.resolve(st, I.load(st, p))
+        g += 1
+    s_ = seq_of(I, st, args[0])
+    n = None
+    for g_ in (info.get("gargs") or []):
+        if re.fullmatch(r"\d+(_usize)?", str(g_)):
+            n = int(str(g_).split("_")[0])
+    if n is None:
+        m = re.search(r"::<(\d+)>$", M.decode_typenum(info["name"]))
+        n = int(m.group(1)) if m else None
+    if n is None or not isinstance(p, Ptr):
+        return None
+    n = Aff(n)
+    L = s_.length
+    op = info["tdef"].split("::")[-1]
+    out = []
+    for s2, t in fork_bool(I, st, I.compare(st, "Le", n, L)):
+        if not t:
+            out.append((s2, "return", none()))
+            continue
+        head, tail_ = (Aff(0), n), (n, L)
+        if op.startswith(("split_last", "last")):
+            head, tail_ = (L.sub(n), L), (Aff(0), L.sub(n))
+        hp = Ptr(p.cell, p.path + (("range", head[0], head[1]),))
+        tp = Ptr(p.cell, p.path + (("range", tail_[0], tail_[1]),))
+        if op in ("first_chunk_mut", "last_chunk_mut"):
+            out.append((s2, "return", some(hp)))
+        elif op == "split_first_chunk_mut":
+            out.append((s2, "return", some(Struct("(tuple)", None, {"0": hp, "1": tp}))))
+        else:
+            out.append((s2, "return", some(Struct("(tuple)", None, {"0": tp, "1": hp}))))
+    return out
+
+
 @model(r"^alloc::vec::Vec::<T, A>::split_off$")
 def m_split_off(I, st, info, args, depth):
     """v.split_off(at): v keeps [..at], the result is [at..]; panics when at > len"""
@@ -1372,7 +1476,11 @@ def m_panic(I, st, info, args, depth):
 @model(r"^core::str::<impl str>::split$|^core::str::<impl str>::splitn$|^core::str::<impl str>::rsplit$")
 def m_split(I, st, info, args, depth):
     src = seq_of(I, st, args[0])
-    return ret(st, Struct("str::Split", None, {"src": src, "sep": args[1] if len(args) > 1 else UNIT, "pos": Aff(0), "how": StrV(info["tdef"].split("::")[-1])}))
+    how = info["tdef"].split("::")[-1]
+    if how == "splitn":     # splitn(n, pat): at most n items, the last one is the rest of the string
+        lim = I.resolve(st, args[1])
+        return ret(st, Struct("str::Split", None, {"src": src, "sep": args[2] if len(args) > 2 else UNIT, "pos": Aff(0), "how": StrV(how), "limit": lim if isinstance(lim, Aff) else Aff(-1)}))
+    return ret(st, Struct("str::Split", None, {"src": src, "sep": args[1] if len(args) > 1 else UNIT, "pos": Aff(0), "how": StrV(how)}))
 
 
 @model(r"^core::iter::traits::iterator::Iterator::collect$")
@@ -1528,8 +1636,9 @@ def m_default(I, st, info, args, depth):
     """Default of the std types whose default is a fixed value (crate-local impls are interpreted from their MIR)"""
     if info["def"] in I.facts.bodies:
         return None
-    m = re.match(r"^<(.*) as core::default::Default>::default$", info["name"])
-    ty = m.group(1) if m else ""
+    m = re.match(r"^<(.*) as core::default::Default>::default$", info["name"]) or re.search(r"<impl core::default::Default for (.*)>::default$", info["name"]) \
+        or re.search(r"<impl core::default::Default for (.*)>::default$", info.get("def") or "")
+    ty = m.group(1) if m else ((info.get("gargs") or [""])[0] if len(info.get("gargs") or []) == 1 else "")
     if ty.startswith("core::option::Option<"):
         return ret(st, none())
     if ty in ("&str", "alloc::string::String", "str") or ty.startswith("&'") and ty.endswith(" str"):
@@ -1542,6 +1651,8 @@ def m_default(I, st, info, args, depth):
         return ret(st, Seq("vec", Aff(0), elems=[], kind="vec"))
     if ty.startswith("core::marker::PhantomData<"):
         return ret(st, UNIT)
+    if ty == "serde_json::value::Value":
+        return ret(st, Struct("serde_json::value::Value", "Null", {}))
     return None
 
 
@@ -1603,6 +1714,8 @@ def m_try_from(I, st, info, args, depth):
     # &[u8] -> &[u8; N]  /  [u8; N]
     m = re.search(r"<&\[u8; (\d+)\] as core::convert::TryFrom<&\[u8\]>>|<\[u8; (\d+)\] as core::convert::TryFrom<&\[u8\]>>|TryFrom<&'a \[T\]> for &'a \[T; N\]|<&\[u8\] as core::convert::TryInto<&?\[u8; (\d+)\]>>", nm + " " + info["def"])
     mm = re.search(r"\[u8; (\d+)\]", nm)
+    if not m and mm and re.search(r"<impl core::convert::TryFrom<&(?:'\w+ )?\[u8\]> for &?(?:'\w+ )?\[u8; \d+\]>::try_from$", nm):
+        m = mm
     if m and mm:
         n = int(mm.group(1))
         s_ = seq_of(I, st, args[0])
@@ -1610,6 +1723,34 @@ def m_try_from(I, st, info, args, depth):
         for s2, t in fork_bool(I, st, I.compare(st, "Eq", s_.length, Aff(n))):
             out.append((s2, "return", ok(Seq(s_.name, Aff(n), s_.elems, s_.chunks, dict(s_.attrs), "array")) if t else err(Sym("TryFromSliceError"))))
         return out
+    # slice -> array of a const-generic length ([u8; KEYSIZE]): Ok exactly when the lengths agree, the same bytes
+    mg = re.search(r"<&?\[(?:u8|T); ([A-Z][A-Z0-9_]*)\] as core::convert::TryFrom<&(?:'\w+ )?\[(?:u8|T)\]>>", nm) or \
+        re.search(r"<impl core::convert::TryFrom<&(?:'\w+ )?\[u8\]> for &?(?:'\w+ )?\[u8; ([A-Z][A-Z0-9_]*)\]>::try_from$", nm)
+    if mg:
+        n = Aff.sym(mg.group(1))
+        s_ = seq_of(I, st, args[0])
+        out = []
+        for s2, t in fork_bool(I, st, I.compare(st, "Eq", s_.length, n)):
+            out.append((s2, "return", ok(Seq(s_.name, n, s_.elems, s_.chunks, dict(s_.attrs), "array")) if t else err(Sym("TryFromSliceError"))))
+        return out
+    # integer conversions: widening never fails; narrowing succeeds exactly when the value fits
+    mi = re.search(r"<(u8|u16|u32|u64|u128|usize) as core::convert::TryFrom<(u8|u16|u32|u64|u128|usize)>>::try_from$", nm) or \
+        re.search(r"<impl core::convert::TryFrom<(?P<src>u8|u16|u32|u64|u128|usize)> for (?P<dst>u8|u16|u32|u64|u128|usize)>::try_from$", nm + " " + (info.get("def") or ""))
+    if mi:
+        dst, src = (mi.group("dst"), mi.group("src")) if "dst" in mi.groupdict() else (mi.group(1), mi.group(2))
+        bits = {"u8": 8, "u16": 16, "u32": 32, "u64": 64, "u128": 128, "usize": 32}     # usize: at least 32 bits
+        src_bits = {"usize": 64}.get(src, bits[src])                                   # ... and at most 64
+        x = I.resolve(st, args[0])
+        if src_bits <= bits[dst]:
+            return ret(st, ok(x))
+        lim = (1 << bits[dst]) - 1
+        if isinstance(x, Bits) and x.mask <= lim:
+            return ret(st, ok(x))
+        if isinstance(x, Aff):
+            out = []
+            for s2, t in fork_bool(I, st, I.compare(st, "Le", x, Aff(lim))):
+                out.append((s2, "return", ok(x) if t else err(Sym("TryFromIntError"))))
+            return out
     if "Signature" in nm or "signature" in nm:
         return result_fork(I, st, Sym("signature object"), "signature::Error", "signature parse")
     return result_fork(I, st, Sym("converted"), "conversion error", "try_from")
@@ -1664,17 +1805,82 @@ def m_checked(I, st, info, args, depth):
 SAFE_STD = (r"^core::str::<impl str>::(bytes|chars|char_indices|trim|trim_start|trim_end|trim_matches|starts_with|ends_with|contains|find|rfind|eq_ignore_ascii_case|is_char_boundary|"
             r"to_lowercase|to_uppercase|to_ascii_lowercase|to_ascii_uppercase|get|as_ptr|lines|split_once|rsplit_once|strip_prefix|strip_suffix|parse|is_ascii|nth|rsplitn|split_terminator|matches)$|"
             r"^alloc::str::<impl str>::(to_lowercase|to_uppercase|repeat|replace|to_ascii_lowercase|to_ascii_uppercase)$|"
-            r"^core::iter::traits::iterator::Iterator::(zip|map|filter|filter_map|enumerate|rev|skip|take|chain|cloned|copied|peekable|count|nth|last|position|sum|min|max|find|find_map|for_each|try_for_each|try_fold|flat_map|flatten|take_while|skip_while|eq|cmp|by_ref|size_hint|map_while|inspect|fuse|step_by)$|"
+            r"^core::iter::traits::iterator::Iterator::(zip|map|filter|filter_map|enumerate|rev|skip|take|chain|cloned|copied|peekable|count|nth|last|position|sum|min|max|find|find_map|for_each|try_for_each|try_fold|flat_map|flatten|take_while|skip_while|eq|cmp|by_ref|size_hint|map_while|inspect|fuse)$|"
             r"^core::iter::traits::double_ended::DoubleEndedIterator::(next_back|rev|rfold|rfind|nth_back)$|"
-            r"^core::slice::<impl \[T\]>::(iter_mut|starts_with|ends_with|chunks|chunks_exact|chunks_exact_mut|windows|split_first|split_last|to_owned|concat|is_sorted|binary_search|get_mut|fill|reverse|as_ptr)$|"
+            r"^core::slice::<impl \[T\]>::(iter_mut|starts_with|ends_with|split_first|split_last|to_owned|concat|is_sorted|binary_search|get_mut|fill|reverse|as_ptr)$|"
             r"^alloc::vec::Vec::<T, A>::(get|first|last|clear|truncate|reserve|capacity|pop|iter|as_ptr|shrink_to_fit|dedup|retain|append|is_empty)$|"
-            r"^alloc::string::String::(clear|capacity|from_utf8_lossy|truncate|pop|reserve)$|^core::char::methods::<impl char>::|^core::num::<impl u8>::(is_ascii|to_ascii|eq_ignore)|"
+            r"^alloc::string::String::(clear|capacity|from_utf8_lossy|pop|reserve)$|^core::char::methods::<impl char>::|^core::num::<impl u8>::(is_ascii|to_ascii|eq_ignore)|"
             r"^alloc::string::FromUtf8Error::(utf8_error|into_bytes|as_bytes)$|^core::str::error::Utf8Error::(valid_up_to|error_len)$|"
             r"^core::option::Option::<T>::(iter|iter_mut)$|"
             r"^core::result::Result::<T, E>::(iter|iter_mut)$|"
             r"^std::collections::hash::map::HashMap::<K, V, S(, A)?>::(get|iter|keys|values|len|is_empty|get_key_value)$|^std::collections::hash::set::HashSet::<T, S(, A)?>::(contains|get|len|is_empty|iter)$|"
-            r"^serde_json::value::Value::(get|is_string|is_number|is_boolean|is_array|is_object|as_bool|as_i64|as_u64|as_f64|as_array|as_object|pointer)$|^serde_json::map::Map::<.*>::(iter|keys|values|is_empty)$|"
+            r"^serde_json::value::Value::(is_string|is_number|is_boolean|is_array|is_object|as_bool|as_i64|as_u64|as_f64|as_array|as_object|pointer)$|^serde_json::map::Map::<.*>::(iter|keys|values|is_empty)$|"
             r"^core::cmp::(Ord|PartialOrd)::(cmp|partial_cmp|max|min)$|^core::cmp::(min|max)$|^core::mem::(size_of|align_of)")
+
+
+@model(r"^alloc::string::String::truncate$")
+def m_string_truncate(I, st, info, args, depth):
+    """String::truncate(n) panics when n is not on a char boundary: discharged only for n == 0, n >= len, or text known to be ASCII"""
+    p = I.resolve(st, args[0])
+    s_ = seq_of(I, st, args[0])
+    n = I.resolve(st, args[1])
+    if not isinstance(n, Aff):
+        return None
+    out = []
+    ascii_ = bool(s_.attrs.get("ascii")) or (s_.attrs.get("const") is not None and all(ord(c) < 128 for c in str(s_.attrs.get("const"))))
+    for s2, ge in fork_bool(I, st, I.compare(st, "Ge", n, s_.length)):
+        if ge:
+            out.append((s2, "return", UNIT))
+            continue
+        okc = True if (ascii_ or n == Aff(0)) else False
+        for s3, okk in need(I, s2, info, "String::truncate", okc, "new length %r lies on a char boundary of the (non-ASCII capable) text" % (n,)):
+            if okk:
+                if isinstance(p, Ptr):
+                    I.store_to(s3, p, Seq("%s[..%r]" % (s_.name, n), n, kind="str"))
+                out.append((s3, "return", UNIT))
+            else:
+                out.append((s3, "panic", ("String::truncate", info["fn"], info["ln"])))
+    return out
+
+
+@model(r"^core::slice::<impl \[T\]>::(chunks|chunks_exact|chunks_exact_mut|chunks_mut|windows|rchunks)$|^core::iter::traits::iterator::Iterator::step_by$")
+def m_nonzero_arg(I, st, info, args, depth):
+    """chunks(0) / windows(0) / step_by(0) panic: the size must be provably non-zero"""
+    n = I.resolve(st, args[1]) if len(args) > 1 else None
+    okc = I.compare(st, "Ge", n, Aff(1)) if isinstance(n, Aff) else False
+    out = []
+    for s2, okk in need(I, st, info, info["tdef"].split("::")[-1], okc, "the chunk / window / step size is at least 1"):
+        if okk:
+            out.append((s2, "return", Sym("%s@%d" % (info["tdef"].split("::")[-1], info["ln"]))))
+        else:
+            out.append((s2, "panic", (info["tdef"].split("::")[-1], info["fn"], info["ln"])))
+    return out
+
+
+@model(r"^serde_json::value::Value::get$")
+def m_json_get(I, st, info, args, depth):
+    """value.get(key): None when the member is absent (then value[key] is Null), otherwise a reference to the very member value[key] denotes"""
+    base = deref(I, st, args[0])
+    k = str_key(I, st, args[1])
+    if not (isinstance(base, Sym) and k[0] in ("const", "sym")):
+        return ret(st, Sym("get@%d" % info["ln"], attrs={"adt": "core::option::Option"}))
+    bn = getattr(base, "name", "json")
+    key = (("jsonidx", bn), k)
+    if key not in st.symfields:
+        st.symfields[key] = json_sym("%s[%s]" % (bn, k[1]))
+    mem = st.symfields[key]
+    out = []
+    cls = st.facts.get(("cls", mem.name), mem.classes)
+    # (the serialised form of an expected claim holds its one entry under the claim's own key - C14.R2 - so that lookup does not fail)
+    if (cls is None or "Null" in cls) and not bn.startswith("expected("):
+        s2 = st.clone()
+        s2.symfields = dict(st.symfields)
+        s2.facts[("cls", mem.name)] = frozenset(["Null"])
+        s2.facts[("lookup_refined", mem.name)] = True
+        s2.cond.append("%s absent" % mem.name)
+        out.append((s2, "return", none()))
+    out.append((st, "return", some(Ptr(st.new_cell(mem), ()))))
+    return out
 
 
 @model(SAFE_STD)
@@ -1726,18 +1932,21 @@ def m_chunk_split(I, st, info, args, depth):
         return None
     n = Aff(n)
 
-    def arr(name):
+    def arr(name, first=False, s2=None):
+        if first and n.const <= 64 and (s_.elems is not None or s_.attrs.get("elem") is not None):
+            # the leading elements under their own names (element i of the chunk is element i of the sequence)
+            return Seq(name, n, [I.project(s2, s_, i) for i in range(n.const)], kind="array")
         return Seq(name, n, kind="array")
     out = []
     for s2, t in fork_bool(I, st, I.compare(st, "Le", n, L)):
         if not t:
             out.append((s2, "return", none()))
         elif op == "first_chunk":
-            out.append((s2, "return", some(Ptr(s2.new_cell(arr(s_.name + "[..%r]" % n)), ()))))
+            out.append((s2, "return", some(Ptr(s2.new_cell(arr(s_.name + "[..%r]" % n, True, s2)), ()))))
         elif op == "last_chunk":
             out.append((s2, "return", some(Ptr(s2.new_cell(arr(s_.name + "[%r..]" % L.sub(n))), ()))))
         elif op == "split_first_chunk":
-            out.append((s2, "return", some(Struct("(tuple)", None, {"0": Ptr(s2.new_cell(arr(s_.name + "[..%r]" % n)), ()), "1": Seq(s_.name + "[%r..]" % n, L.sub(n), kind="bytes")}))))
+            out.append((s2, "return", some(Struct("(tuple)", None, {"0": Ptr(s2.new_cell(arr(s_.name + "[..%r]" % n, True, s2)), ()), "1": Seq(s_.name + "[%r..]" % n, L.sub(n), kind="bytes")}))))
         else:
             out.append((s2, "return", some(Struct("(tuple)", None, {"0": Seq(s_.name + "[..%r]" % L.sub(n), L.sub(n), kind="bytes"), "1": Ptr(s2.new_cell(arr(s_.name + "[%r..]" % L.sub(n))), ())}))))
     return out
@@ -1810,6 +2019,9 @@ def m_push_str(I, st, info, args, depth):
     p = I.resolve(st, args[0])
     cur = deref(I, st, p)
     x = deref(I, st, args[1])
+    if isinstance(p, Ptr) and isinstance(cur, StrV) and isinstance(cur.s, str):
+        # a String holding known text
+        cur = Seq("string", Aff(len(cur.s.encode())), None, [("lit", cur.s)] if cur.s else [], kind="str")
     if isinstance(p, Ptr) and isinstance(cur, Seq):
         chunks = list(cur.chunks) if cur.chunks is not None else ([("arg", cur)] if cur.elems is None and cur.name != "string" else [])
         if isinstance(x, StrV):
